@@ -43,9 +43,10 @@ def data_dir_attrs(fm_module, home=None):
     root = home / ".sse"
     names = []
     for name, val in vars(fm_module).items():
-        if isinstance(val, pathlib.PurePath):
+        # a pathlib path or a plain string (os.path style) - the value is replaced by one of the same type
+        if isinstance(val, pathlib.PurePath) or (isinstance(val, str) and val.startswith(str(root)) and not name.startswith("__")):
             try:
-                val.relative_to(root)
+                pathlib.PurePath(val).relative_to(root)
             except ValueError:
                 continue
             names.append(name)
@@ -65,7 +66,7 @@ def set_data_dir(fm_module, newdir):
             raise BindingError("%s has no module-level path below ~/.sse: the harness cannot select a data directory" % key)
         _DATA_ATTRS[key] = names
     for n in _DATA_ATTRS[key]:
-        setattr(fm_module, n, pathlib.Path(newdir))
+        setattr(fm_module, n, str(newdir) if isinstance(getattr(fm_module, n, None), str) else pathlib.Path(newdir))
     return _DATA_ATTRS[key]
 
 
